@@ -81,9 +81,9 @@ Definition schema_classed (s : schema) : Prop :=
 (* the row built from a dict record can be sized *)
 Definition sizable (ns : list key) (r : record) : Prop := forallb packable (extract ns r) = true.
 
-(* the entry is a record: a dict or any other mapping *)
+(* the entry is a record: a dict, an instance of a dict subclass, or any other mapping *)
 Definition is_mapping (e : entry) : bool :=
-  match ekind_of e with KDict | KMapping => true | KTuple | KScalar => false end.
+  match ekind_of e with KDict | KDictSub | KMapping => true | KTuple | KScalar => false end.
 
 (* a frame whose schema is a list of names behaves like all-untyped, all-nullable columns *)
 Definition frame_schema (k : fkind) : schema :=
@@ -103,7 +103,7 @@ Fixpoint accepted (es : list entry) (os : list aout) : list entry :=
 (* the row a successful append stores *)
 Definition built (k : fkind) (e : entry) : row :=
   match ekind_of e with
-  | KDict | KMapping => extract (fields k) (eitems e)
+  | KDict | KDictSub | KMapping => extract (fields k) (eitems e)
   | KTuple => map snd (eitems e)
   | KScalar => []
   end.
